@@ -442,7 +442,7 @@ def gen_step(world, rng, cfg):
                     if op.get('bad_row') is not None:
                         op['bad_row'] = min(op['bad_row'], len(op['rows']) - 1)
         elif d.startswith('restart:'):
-            if len(world.reps) < 4:
+            if len(world.reps) < 4 and not isinstance(cfg['nodes'][0], tuple):     # tuple ids have no file form
                 op = gen.gen_restart(rng, rep, cfg, d.split(':')[1],
                                      faults=spec.get('io_faults') and rng.random() < 0.35)
         elif len(world.reps) < 4 or rng.random() < 0.3:
